@@ -290,6 +290,18 @@ def run(ck):
                                     what='[%s] %s: length(%r, %r) = %r, Gauss-Legendre quadrature of the speed gives %r' % (cfg, nm_, t0, t1, got, ref),
                                     case={'arc': nm_, 't0': t0, 't1': t1, 'cfg': cfg}, expected=ref, observed=repr(got), driver='arc')
                         break
+            # collinear cubics that go there and back to their own start (start, middle and end coincide): the travelled length, not 0
+            for P_, d_ in ((0j, 3 + 4j), (2 - 1j, 1 + 0j), (5 + 5j, -2 + 2j)):
+                tb = sp.CubicBezier(P_, P_ + d_, P_ - d_, P_)
+                trav = sum(abs(tb.point((j_ + 1) / 20000.0) - tb.point(j_ / 20000.0)) for j_ in range(20000))
+                ck.case(fp=('there-and-back', str(P_), str(d_), cfg), nontrivial=True)
+                try:
+                    got = (tb.length(), tb.length(0, 0.5) + tb.length(0.5, 1), sp.Path(tb, sp.Line(P_, P_ + 1)).length() - 1)
+                except Exception as e:      # noqa
+                    got = e
+                if isinstance(got, Exception) or any(not (abs(g_ - trav) <= 5e-3 * trav) for g_ in got):
+                    ck.disagree(key='CubicBezier.length/there-and-back', site='svgpathtools/path.py:CubicBezier.length / segment_length', what='[%s] %r: length, halves, in a path = %r; it travels %r' % (cfg, tb, got, trav),
+                                case={'P': str(P_), 'd': str(d_), 'cfg': cfg}, expected=trav, observed=repr(got), driver='collinear')
             # the same curves in other units / elsewhere (length is homogeneous of degree 1 and translation invariant), and sub-interval requests on an object
             # whose whole length has been asked before (nothing remembered may enter a later answer at lower accuracy)
             base_shapes = [('quad arch', lambda f: sp.QuadraticBezier(f(0j), f(1 + 1j), f(2 + 0j))), ('cubic', lambda f: sp.CubicBezier(f(0j), f(1 + 2j), f(3 - 1j), f(4 + 1j))),
@@ -318,6 +330,21 @@ def run(ck):
                                         what='[%s] %s at scale %g, offset %r: length%r = %r, the curve at scale 1 has %r' % (cfg, nm_, k_, off_, iv, got, ref_len[iv]),
                                         case={'shape': nm_, 'scale': k_, 'off': str(off_), 'cfg': cfg}, expected=k_ * ref_len[iv], observed=repr(got), driver='placement')
                             break
+                # measured, a control point moved in place, reversed (alone and inside a path): the copy has the length of the curve it is
+                if not isinstance(ref_seg, sp.Arc):
+                    sg_ = mk_(lambda z: z)
+                    sg_.length()
+                    names_ = {3: ('start', 'control', 'end'), 4: ('start', 'control1', 'control2', 'end')}[len(sg_.bpoints())]
+                    setattr(sg_, names_[1], getattr(sg_, names_[1]) + (7 + 9j))
+                    fresh_ = type(sg_)(*sg_.bpoints())
+                    ck.case(fp=('edit-then-reversed', nm_, cfg), nontrivial=True)
+                    try:
+                        a_, b_, c_ = sg_.reversed().length(), fresh_.length(), sp.Path(sg_, sp.Line(sg_.end, sg_.end + 2)).reversed().length()
+                    except Exception as e:      # noqa
+                        a_, b_, c_ = e, None, None
+                    if isinstance(a_, Exception) or not (abs(a_ - b_) <= 1e-6 * b_) or not (abs(c_ - (b_ + 2)) <= 1e-6 * b_):
+                        ck.disagree(key='%s.length/reversed-after-an-edit' % type(sg_).__name__, site='svgpathtools/path.py:reversed / length', what='[%s] %s: length(); control point moved; reversed().length() = %r, Path.reversed().length() = %r; a new object: %r' % (cfg, nm_, a_, c_, b_),
+                                    case={'shape': nm_, 'cfg': cfg}, expected=repr(b_), observed=repr(a_), driver='history')
                 # whole first, then tails / heads: equal to a new object's answers
                 for iv in ((0.999, 1), (0.9, 1), (0, 0.001), (0.5, 1), (0.4999, 0.5001)):
                     warm_, fresh_ = mk_(lambda z: z), mk_(lambda z: z)
